@@ -380,6 +380,15 @@ impl FieldParser {
 }
 
 impl TemplateField {
+    /// Field type as it goes on the wire: decoding strips the enterprise bit from
+    /// `field_type_number` when an enterprise number follows, exporting sets it again.
+    fn wire_type_number(&self) -> u16 {
+        match self.enterprise_number {
+            Some(_) => self.field_type_number | 0x8000,
+            None => self.field_type_number,
+        }
+    }
+
     // If 65335, read 1 byte.
     // If that byte is < 255 that is the length.
     // If that byte is == 255 then read 2 bytes.  That is the length.
@@ -431,7 +440,7 @@ impl IPFix {
                 result_flowset.extend_from_slice(&template.field_count.to_be_bytes());
 
                 for field in template.fields.iter() {
-                    result_flowset.extend_from_slice(&field.field_type_number.to_be_bytes());
+                    result_flowset.extend_from_slice(&field.wire_type_number().to_be_bytes());
                     result_flowset.extend_from_slice(&field.field_length.to_be_bytes());
                     if let Some(enterprise) = field.enterprise_number {
                         result_flowset.extend_from_slice(&enterprise.to_be_bytes());
@@ -447,7 +456,7 @@ impl IPFix {
                     .extend_from_slice(&options_template.scope_field_count.to_be_bytes());
 
                 for field in options_template.fields.iter() {
-                    result_flowset.extend_from_slice(&field.field_type_number.to_be_bytes());
+                    result_flowset.extend_from_slice(&field.wire_type_number().to_be_bytes());
                     result_flowset.extend_from_slice(&field.field_length.to_be_bytes());
                     if let Some(enterprise) = field.enterprise_number {
                         result_flowset.extend_from_slice(&enterprise.to_be_bytes());
